@@ -56,3 +56,15 @@ Definition C15_idempotent_statement : Prop :=
   forall unsup rec a, wf_ann a = true -> spec_out unsup (spec_rec unsup rec a) a = [].
 Definition C15_silent_statement : Prop :=
   forall unsup rec a c, In c (spec_out unsup rec a) -> request_kind c = true /\ memN c unsup = false.
+
+(* the same with set-up finishing somewhere in the history (frame errors published then) *)
+Fixpoint spec_hist (unsup : list N) (rec : vmap) (h : list hev) : list (list N) :=
+  match h with
+  | [] => []
+  | HAnn a :: t => spec_out unsup rec a :: spec_hist unsup (spec_rec unsup rec a) t
+  | HSetup u :: t => [] :: spec_hist u rec t
+  end.
+Definition wf_hev (e : hev) : bool := match e with HAnn a => wf_ann a | HSetup _ => true end.
+Definition P15h (h : list hev) (outs : list (list N)) : bool := outs_eqb outs (spec_hist [] (fun _ => None) h).
+Definition C15_hist_statement : Prop :=
+  forall h, forallb wf_hev h = true -> P15h h (announce_hist [] [] h) = true.
